@@ -77,13 +77,28 @@ class TlcResult:
             self.coverage[m.group(1)] = (int(m.group(3)), int(m.group(4)))
 
     def tagged(self, tag):
-        """Lines printed by PrintT(<<"TAG", ...>>) -> list of raw inner text after the tag."""
+        """Values printed by PrintT(<<"TAG", ...>>) -> list of raw inner text after the tag.
+        TLC pretty-prints long values over several lines: accumulate until << >> balance."""
         res = []
-        pat = re.compile(r'^<<"' + re.escape(tag) + r'"(?:, (.*))?>>$')
-        for line in self.out.splitlines():
-            m = pat.match(line.strip())
+        lines = self.out.splitlines()
+        pat = re.compile(r'^<<\s*"' + re.escape(tag) + r'"\s*(,|>>)')
+        i = 0
+        while i < len(lines):
+            line = lines[i].strip()
+            m = pat.match(line)
             if m:
-                res.append(m.group(1) or "")
+                buf = line
+                depth = buf.count("<<") - buf.count(">>")
+                while depth > 0 and i + 1 < len(lines):
+                    i += 1
+                    nxt = lines[i].strip()
+                    buf += " " + nxt
+                    depth += nxt.count("<<") - nxt.count(">>")
+                inner = buf[m.end(1) if m.group(1) == "," else m.start(1):]
+                inner = inner.strip()
+                inner = inner[:-2] if inner.endswith(">>") else inner
+                res.append(inner.strip())
+            i += 1
         return res
 
     def ok(self):
